@@ -14,3 +14,47 @@ register(
     assumptions=["dashmap 6.1.0 RawRwLock is reader-preferring (read from its source; version re-checked on each run)",
                  "lock operations inside dependencies are not analysed", "termination of loops is not analysed"],
 )
+
+from . import r2
+
+register(
+    "C09",
+    "Structural necessary conditions for isolation of concurrent per-file analyses, decided on every write operation "
+    "of the shared maps found in MIR: (R2a) name-keyed vectors are only mutated in place under one entry()/get_mut() "
+    "guard or removed by remove_if, (R2b) remove_if predicates are exactly is_empty(), (R2c) retain predicates under "
+    "such a guard keep exactly the other files' elements, (R2d) per-file index maps are written only under the key of "
+    "the file being analysed. Decides the shape of every mutation site, not sequential equivalence of whole analyses.",
+    [r2.r2a_atomic_ops, r2.r2b_remove_if, r2.r2c_retain, r2.r2d_own_file_keys],
+    assumptions=["DashMap entry()/get_mut()/remove_if() are atomic per key (dashmap 6.1.0 shard lock)",
+                 "linearizability of whole analyses is not decided"],
+)
+
+from . import r3
+
+register(
+    "C06",
+    "Structural necessary conditions for history independence, decided in the CFG of the analysis entry point (found by "
+    "role: calls the Python parser and stores the file text): (R3a) every map that receives appends during analysis is "
+    "cleared for the analysed file by an operation that dominates every append-reaching call, (R3b) all index writes "
+    "are dominated by the Ok edge of the parse result (failed parse writes nothing; nothing written before parsing), "
+    "(R3e) the entry's cleaning flag is false only on paths the document-synchronisation handlers cannot reach. "
+    "Does not decide equality with a freshly built index for every history.",
+    [r3.r3a_clean_before_append, r3.r3b_failure_path_readonly, r3.r3e_who_skips_cleaning],
+)
+
+register(
+    "C10",
+    "Structural conditions for 'editor buffers win over the background scan': (R3e) document-synchronisation handlers "
+    "reach the analysis entry only with cleaning enabled; (R3e2) no task spawned from a handler runs the non-cleaning "
+    "analysis, which could run in parallel with did_open/did_change. Which content wins for each timing is a schedule "
+    "property and is not decided.",
+    [r3.r3e_who_skips_cleaning, r3.r3e2_parallel_scan],
+)
+
+register(
+    "C04",
+    "Structural conditions for references being the inverse of go-to-definition: (R3c) the per-file usage map and its "
+    "per-name reverse index are appended in step from one FixtureUsage, removals are paired with a by-file clear of "
+    "the reverse index, no other writer exists. The equivalence itself for every (definition, usage) pair is not decided.",
+    [r3.r3c_reverse_index],
+)
